@@ -319,7 +319,7 @@ def _first(it, c, a):
     xs = items_of(a[0]); return some(RefV(xs, 0)) if xs else none()
 
 
-@model('[]::last')
+@model('[]::last', '[]::last_mut', 'Vec::last', 'Vec::last_mut')
 def _last(it, c, a):
     xs = items_of(a[0]); return some(RefV(xs, len(xs) - 1)) if xs else none()
 
@@ -531,6 +531,16 @@ def _sat_sub(it, c, a):
         return IntV(max(0, x.v - y.v), x.bits, 0)
     lt = z3.ULT(x.z(), y.z())
     return IntV(z3.If(lt, z3.BitVecVal(0, x.bits), x.z() - y.z()), x.bits, 0)
+
+
+@model('usize::saturating_add', 'u32::saturating_add', 'u64::saturating_add', 'u16::saturating_add', 'u8::saturating_add')
+def _sat_add(it, c, a):
+    x, y = a
+    M_ = (1 << x.bits) - 1
+    if not x.sym() and not y.sym():
+        return IntV(min(M_, x.v + y.v), x.bits, 0)
+    s_ = x.z() + y.z()
+    return IntV(z3.If(z3.ULT(s_, x.z()), z3.BitVecVal(M_, x.bits), s_), x.bits, 0)
 
 
 @model('usize::checked_sub', 'u32::checked_sub')
